@@ -514,6 +514,8 @@ func serialise(c *Case) []byte {
 		return ddMetJSON(c, r)
 	case "otlp":
 		return otlpPB(c)
+	case "ddcf", "esbulk":
+		return ndWire(c, r)
 	}
 	panic(fmt.Sprintf("unknown proto %q", c.Proto))
 }
